@@ -1,15 +1,15 @@
 import Spydr.IR.SepOps0
 namespace Spydr.IR
 
-theorem sep_addDefinition (s : S) (off l d pos veto) : Sep s off → (Op.addDefinition l d pos veto).above off →
-    Sep (step s (.addDefinition l d pos veto)).1 off ∧ LowEq (step s (.addDefinition l d pos veto)).1 s off := by sep_op
-theorem sep_removePortsFrom (s : S) (off d ps) : Sep s off → (Op.removePortsFrom d ps).above off →
-    Sep (step s (.removePortsFrom d ps)).1 off ∧ LowEq (step s (.removePortsFrom d ps)).1 s off := by sep_op
-theorem sep_addChild (s : S) (off d i pos veto) : Sep s off → (Op.addChild d i pos veto).above off →
-    Sep (step s (.addChild d i pos veto)).1 off ∧ LowEq (step s (.addChild d i pos veto)).1 s off := by sep_op
-theorem sep_removePinsFrom (s : S) (off p qs) : Sep s off → (Op.removePinsFrom p qs).above off →
-    Sep (step s (.removePinsFrom p qs)).1 off ∧ LowEq (step s (.removePinsFrom p qs)).1 s off := by sep_op
-theorem sep_connectInner (s : S) (off w q pos) : Sep s off → (Op.connectInner w q pos).above off →
-    Sep (step s (.connectInner w q pos)).1 off ∧ LowEq (step s (.connectInner w q pos)).1 s off := by sep_op
+theorem sep_addDefinition (s : S) (R : OId → Prop) (l d pos veto) : Sep s R → (Op.addDefinition l d pos veto).inside R →
+    Sep (step s (.addDefinition l d pos veto)).1 R ∧ OutEq (step s (.addDefinition l d pos veto)).1 s R := by sep_op
+theorem sep_removePortsFrom (s : S) (R : OId → Prop) (d ps) : Sep s R → (Op.removePortsFrom d ps).inside R →
+    Sep (step s (.removePortsFrom d ps)).1 R ∧ OutEq (step s (.removePortsFrom d ps)).1 s R := by sep_op
+theorem sep_addChild (s : S) (R : OId → Prop) (d i pos veto) : Sep s R → (Op.addChild d i pos veto).inside R →
+    Sep (step s (.addChild d i pos veto)).1 R ∧ OutEq (step s (.addChild d i pos veto)).1 s R := by sep_op
+theorem sep_removePinsFrom (s : S) (R : OId → Prop) (p qs) : Sep s R → (Op.removePinsFrom p qs).inside R →
+    Sep (step s (.removePinsFrom p qs)).1 R ∧ OutEq (step s (.removePinsFrom p qs)).1 s R := by sep_op
+theorem sep_connectInner (s : S) (R : OId → Prop) (w q pos) : Sep s R → (Op.connectInner w q pos).inside R →
+    Sep (step s (.connectInner w q pos)).1 R ∧ OutEq (step s (.connectInner w q pos)).1 s R := by sep_op
 
 end Spydr.IR
